@@ -163,6 +163,9 @@ func contentious(r *rand.Rand, powers []int64, chain int) [][]appTx {
 func genAppScript(run *emit.Run, nBlocks int) *appScript {
 	r := run.Rng
 	nv := 4 + r.Intn(6)
+	if r.Intn(3) == 0 { // few validators: every jail protection (25 % of the active stake, last one standing) is close
+		nv = 4 + r.Intn(2)
+	}
 	g := appGenesis{NChains: 1 + r.Intn(3), Powers: genPowers(r, nv)}
 	for i := 0; i < nv; i++ {
 		var fs []string
@@ -179,10 +182,26 @@ func genAppScript(run *emit.Run, nBlocks int) *appScript {
 	for i := range g.Weights {
 		g.Weights[i] = decPool[r.Intn(len(decPool))]
 	}
+	if r.Intn(2) == 0 { // some pigeons never report alive
+		g.Dead = r.Perm(nv)[:2+r.Intn(2)]
+	}
 	sc := &appScript{Genesis: g}
 	h, t := int64(2), int64(1_700_000_100)
 	add := func(txs []appTx) {
-		sc.Blocks = append(sc.Blocks, appBlock{Height: h, Time: t, Txs: txs, Restart: r.Intn(4) == 0})
+		if r.Intn(6) == 0 { // a proposed block that is never finalised: other transactions, maybe at a periodic-work height
+			ph := h
+			if r.Intn(2) == 0 {
+				ph = (h/50 + 1) * 50
+			}
+			var ptx []appTx
+			for k := 1 + r.Intn(3); k > 0; k-- {
+				tx := genAppTx(r, nv, g.NChains)
+				tx.SimOnly = false
+				ptx = append(ptx, tx)
+			}
+			sc.Blocks = append(sc.Blocks, appBlock{Height: ph, Time: t, Txs: ptx, Phantom: true})
+		}
+		sc.Blocks = append(sc.Blocks, appBlock{Height: h, Time: t, Txs: txs, Restart: r.Intn(4) == 0, Quiet: r.Intn(3) == 0})
 	}
 	randTxs := func() []appTx {
 		var txs []appTx
@@ -240,6 +259,8 @@ func corpusAppScripts() []*appScript {
 				{Msgs: []appMsg{{Kind: "slc", Data: "p"}}}}},
 			{Height: 3, Time: 1_700_000_160, Txs: []appTx{
 				{Msgs: []appMsg{{Kind: "weights", W: w("0", "1.0")}, {Kind: "status", Data: "x", Level: 99}}}}},
+			{Height: 50, Time: 1_700_000_200, Phantom: true, Txs: []appTx{
+				{Msgs: []appMsg{{Kind: "extinfo", Val: 2, Data: "b", Trait: []string{"mev"}}}}, {Msgs: []appMsg{{Kind: "fee", Val: 1, Data: "1.0"}}}}},
 			{Height: 4, Time: 1_700_000_220, Restart: true, Txs: []appTx{{Msgs: []appMsg{{Kind: "job"}}}}},
 			{Height: 5, Time: 1_700_000_280, Txs: []appTx{
 				{SimOnly: true, Msgs: []appMsg{{Kind: "minbal", Data: "77"}, {Kind: "feemgr", Data: "0x0000000000000000000000000000000000000001"}}},
@@ -261,7 +282,18 @@ func corpusAppScripts() []*appScript {
 			{Height: 351, Time: 1_700_000_802, Txs: []appTx{{Msgs: []appMsg{{Kind: "slc", Data: "d"}}}}},
 		},
 	}
-	return []*appScript{a, b}
+	// (3) two of four equal validators never report alive: valset's EndBlocker jails the inactive ones, and the
+	// protection lets only one of them be jailed (10 of 40 passes, 10 of 30 does not).
+	c := &appScript{
+		Genesis: appGenesis{Powers: []int64{10, 10, 10, 10}, NChains: 1, Fees: [][]string{{"1.0"}, {"1.0"}, {"1.0"}, {"1.0"}},
+			Traits: [][]string{nil, nil, nil, nil}, Weights: [5]string{"1.0", "0", "0", "0", "0"}, Dead: []int{1, 3, 2}},
+		Blocks: []appBlock{
+			{Height: 2, Time: 1_700_000_100, Txs: []appTx{{Msgs: []appMsg{{Kind: "keepalive", Val: 0, Data: "v9.9.9"}}}}},
+			{Height: 60, Time: 1_700_000_220, Txs: []appTx{{Msgs: []appMsg{{Kind: "slc", Data: "p"}}}}},
+			{Height: 100, Time: 1_700_000_300, Restart: true, Txs: []appTx{{Msgs: []appMsg{{Kind: "job"}}}}},
+		},
+	}
+	return []*appScript{a, b, c}
 }
 
 // ---- parent side ----
@@ -459,6 +491,10 @@ func checkApp(t *testing.T, run *emit.Run, dir, tag string, sc *appScript, envs 
 func emitAppCases(run *emit.Run, sc *appScript, outs [][]blockOut, envs []twinEnv) {
 	failed, changed := false, false
 	for i, b := range sc.Blocks {
+		if b.Phantom {
+			run.Count("app-blocks", "phantom")
+			continue
+		}
 		for ti, tx := range b.Txs {
 			for _, m := range tx.Msgs {
 				run.Count("app-msgs", m.Kind)
